@@ -96,4 +96,11 @@ inline char ups_band_letter(bool northp, int xh) { return northp ? (xh >= 20 ? '
 inline char ups_col_letter(int xh) { return xh >= 20 ? U18[xh - 20] : U18[xh - 2]; }     // east half counts up from A, west half down from Z
 inline char ups_row_letter(bool northp, int yh) { return A24[yh - (northp ? 13 : 8)]; } // rows start at the lower edge of the range (1300 / 800 km)
 
+
+// details go on one protocol line whose fields are separated by "::": keep qualified C++ names readable but unambiguous ("MGRS:.Forward")
+inline void bad_(const std::string& rel, std::string det) {
+  for (size_t i = 0; i + 1 < det.size(); ++i) if (det[i] == ':' && det[i + 1] == ':') det[i + 1] = '.';
+  gv::bad(rel, det);
+}
+
 } // namespace doc
